@@ -96,9 +96,32 @@ Definition enc_plat (r : res plat) : data :=
 
 Definition include_depth : nat := 40.
 
-(* case: (files entry) ; answer: (M S) *)
+(* several commands of one platform in one finder.find call: each is a translation unit from a
+   FRESH platform; what is observable afterwards is the union of the recorded nodes, all
+   warnings, and the macro table of the LAST command's platform *)
+Definition merge_plat (a b : res plat) : res plat :=
+  match a, b with
+  | Ok p, Ok q => Ok {| assoc := assoc q ++ assoc p; defs := defs q; memo := []; once := once q;
+                        events := events q ++ events p; dirs := dirs q |}
+  | Err e, _ => Err e
+  | _, Err e => Err e
+  end.
+Fixpoint run_cmds (run : entry -> res plat) (first : res plat) (more : list entry) : res plat :=
+  match more with
+  | [] => first
+  | e :: r => run_cmds run (merge_plat first (run e)) r
+  end.
+
+(* case: (files entry) or (files entry (entry ...)) ; answer: (M S) *)
 Definition run_C04 (d : data) : data :=
   match d with
+  | DList [files; e; more] =>
+      match as_list_of dec_file files, dec_entry2 e, as_list_of dec_entry2 more with
+      | Some fs, Some (eM, eS), Some ms =>
+          DList [enc_plat (run_cmds (run_tu_M fs include_depth) (run_tu_M fs include_depth eM) (map fst ms));
+                 enc_plat (run_cmds (run_tu_S fs include_depth) (run_tu_S fs include_depth eS) (map snd ms))]
+      | _, _, _ => bad_case
+      end
   | DList [files; e] =>
       match as_list_of dec_file files, dec_entry2 e with
       | Some fs, Some (eM, eS) => DList [enc_plat (run_tu_M fs include_depth eM); enc_plat (run_tu_S fs include_depth eS)]
